@@ -395,6 +395,33 @@ Theorem c20_unknown_option_rejected : forall items out name post, items_effect C
 Proof. exact (unknown_option_rejected CLI GROUP). Qed.
 Print Assumptions c20_unknown_option_rejected.
 
+(* rejections, where they stand (behind any readable prefix, whatever follows - a later --help included): a flag or single-valued
+   option the prefix already holds, in either form and with any value; a value the option's value parser refuses, in either form *)
+Theorem c20_repeated_option_rejected : forall items out name a post,
+  items_effect CLI [] items = Some out -> plain_name name = true -> find_long CLI name = Some a ->
+  single (a_kind a) = true -> has_field out (a_field a) = true ->
+  parse CLI GROUP (render items ++ long_form name :: post) = PUsage /\
+  (forall v, parse CLI GROUP (render items ++ long_eq_form name v :: post) = PUsage).
+Proof. exact (repeated_option_rejected CLI GROUP). Qed.
+Print Assumptions c20_repeated_option_rejected.
+
+Theorem c20_invalid_value_rejected : forall items out name a v post,
+  items_effect CLI [] items = Some out -> plain_name name = true -> find_long CLI name = Some a ->
+  a_kind a <> KFlag -> vp_accepts (a_vp a) v = false ->
+  parse CLI GROUP (render items ++ long_eq_form name v :: post) = PUsage /\
+  parse CLI GROUP (render items ++ long_form name :: v :: post) = PUsage.
+Proof. exact (invalid_value_rejected CLI GROUP). Qed.
+Print Assumptions c20_invalid_value_rejected.
+
+(* the code as it is: --features takes exactly its three documented spellings; EVERY other value (another case, cut short, a
+   blank, a quote ..) is a usage error wherever it stands - so by c20_argv_outcomes no sink is opened and no report byte written *)
+Theorem c20_features_near_miss_rejected : forall items out v post, items_effect CLI [] items = Some out ->
+  ~ In v ["stable-basic"; "stable-all"; "unstable-all"]%str ->
+  parse CLI GROUP (render items ++ long_eq_form "features"%str v :: post) = PUsage /\
+  parse CLI GROUP (render items ++ "--features"%str :: v :: post) = PUsage.
+Proof. exact cli_near_miss_rejected. Qed.
+Print Assumptions c20_features_near_miss_rejected.
+
 (* every argument vector, every environment: the process ends through clap (usage error: status 2, one message on
    standard error, NOTHING else happens - no sink is opened, no report byte; help / version: status 0, text on standard
    output, no sink opened - not even the --log-file) or reaches main()'s logic with a flag record *)
